@@ -25,6 +25,8 @@ import FianoModel.Uefi.ExtractParse
 import FianoModel.Uefi.Spec
 import FianoModel.Uefi.Tie
 import FianoModel.Uefi.ExtractTie
+import FianoModel.Uefi.CodeTie   -- T1 code-as-code tie (wp-t1x): audited as a tie module of this check
+import FianoModel.Uefi.CodeTieGuid   -- T1 code-as-code tie (wp-t1x): audited as a tie module of this check
 
 namespace Fiano.Uefi.C07
 open Fiano Fiano.Uefi
